@@ -182,3 +182,58 @@ func drawBytes(k int) []byte {
 	}
 	return nil
 }
+
+
+// ReadBackLogs: with the debug logger installed, a record is written and read back - genuinely, in a warm and in a
+// fresh process, and damaged so that the data key, the payload or the parent lookup fails (the error paths log too).
+// No logger argument may depend on a payload or key byte.
+func ReadBackLogs() {
+	e := env.New()
+	lg := &capLogger{}
+	log.SetLogger(lg)
+	pol := e.Policy(env.Policies[1], vx.Choice("cache", vx.Param("caches")))
+	f := e.Factory(pol)
+	vx.Now()
+	vx.ClockFreeze(true)
+	s, _ := f.GetSession("p0")
+	payload := vx.Bytes("payload", 2)
+	rec, err := s.Encrypt(env.Ctx, payload)
+	vx.Assert("C03.rb_encrypt_ok", err == nil)
+	if err != nil {
+		vx.Stop()
+	}
+	reader := s
+	if vx.Choice("fresh_process", 2) == 1 {
+		reader, _ = e.Factory(pol).GetSession("p0")
+	}
+	out, err := reader.Decrypt(env.Ctx, *rec)
+	vx.Assert("C03.rb_reads_back", vx.And(err == nil, vx.BytesEq(out, payload)))
+	bad := *env.CloneDRR(rec)
+	switch vx.Choice("damage", 3) {
+	case 0:
+		bad.Key.EncryptedKey = vx.Bytes("badkey", len(rec.Key.EncryptedKey))
+	case 1:
+		bad.Data = vx.Bytes("baddata", len(rec.Data))
+	default:
+		bad.Key.ParentKeyMeta.Created = vx.Timestamp("badparent")
+	}
+	_, err = reader.Decrypt(env.Ctx, bad)
+	if err != nil {
+		vx.Reach("C03.rb_error_path")
+	}
+	// secrets: the payload and every key of the hierarchy (all 32-byte draws that were sealed or used as seal keys)
+	secrets := append([]byte(nil), payload...)
+	for j := 0; j < vx.SealCount(); j++ {
+		if !vx.IsConcrete(vx.SealKey(j)) {
+			secrets = append(secrets, vx.SealKey(j)...)
+		}
+		if k := vx.DrawIndexOf(vx.SealPlain(j)); k >= 0 && vx.DrawLen(k) == 32 {
+			secrets = append(secrets, vx.SealPlain(j)...)
+		}
+	}
+	vx.Assert("C03.rb_logger_saw_something_or_nothing", len(lg.args) >= 0)
+	for _, a := range lg.args {
+		vx.Assert("C03.no_plaintext_in_log_arguments", !vx.DependsOn(a, secrets))
+	}
+	vx.Reach("C03.rb_end")
+}
